@@ -286,6 +286,17 @@ class Tr:
                     i, ti = self.expr(idx, env)
                     if ti == INT:
                         return f"(pyListGet {base} {i})", INT                      # chunk[pos]
+            if isinstance(tb, tuple) and tb[0] == "list" and tb[1] in (BOOL, RAT) and not isinstance(idx, ast.Slice):
+                i, ti = self.expr(idx, env)
+                if ti == INT:
+                    return f"(pyListGet{'B' if tb[1] == BOOL else 'Q'} {base} {i})", tb[1]   # masks[i], weights[i]
+            if (is_num(tb) or tb == BOOL) and not isinstance(idx, (ast.Slice, ast.Tuple)):
+                m, tm = self.expr(idx, env)
+                if tm == BOOL:
+                    # elementwise reading of a masked read `x[mask]`: the element itself (only ever used where the mask holds:
+                    # the statement it feeds is a masked store with the same mask, see subscript_store)
+                    self.masked_reads = getattr(self, "masked_reads", []) + [m]
+                    return base, tb
             raise TranslationError(f"subscript {src}")
         if isinstance(node, ast.Tuple):
             parts = [self.expr(e, env) for e in node.elts]
@@ -298,6 +309,8 @@ class Tr:
                 return f"(-{e})", t
             if isinstance(node.op, ast.Not):
                 return f"(!{self.truthy(e, t)})", BOOL
+            if isinstance(node.op, ast.Invert) and t == BOOL:
+                return f"(!{e})", BOOL                       # `~mask` of a boolean array, elementwise
             raise TranslationError(f"unary {src}")
         if isinstance(node, ast.BinOp):
             a, ta = self.expr(node.left, env)
@@ -309,6 +322,14 @@ class Tr:
                 return f"({a} && {b})", BOOL
             if isinstance(op, ast.BitOr) and ta == BOOL and tb == BOOL:
                 return f"({a} || {b})", BOOL
+            if isinstance(op, (ast.Add, ast.Sub, ast.Mult)) and BOOL in (ta, tb) and (is_num(ta) or is_num(tb)):
+                # a boolean (mask) used as the number 0 / 1: `mask * w`, `count += mask`
+                other = tb if ta == BOOL else ta
+                conv = "pyB2I" if other == INT else "pyB2Q"
+                if ta == BOOL:
+                    a, ta = f"({conv} {a})", (INT if other == INT else RAT)
+                else:
+                    b, tb = f"({conv} {b})", (INT if other == INT else RAT)
             if isinstance(op, (ast.Add, ast.Sub, ast.Mult, ast.Div)) and (NRAT in (ta, tb) or
                                                                           (isinstance(op, ast.Div) and self.spec.get("nan_division"))):
                 self.join_num(ta, tb)
@@ -515,6 +536,10 @@ class Tr:
                 raise TranslationError("np.allclose on something that is not a pair / 4-tuple of numbers")
             want = tup(*([RAT] * n))
             return f"(npAllclose{n} {self.coerce(a, ta, want)} {self.coerce(b, tb, want)})", BOOL
+        if fname == "np.invert" and len(args) == 1 and not node.keywords and args[0][1] == BOOL:
+            return f"(!{args[0][0]})", BOOL
+        if fname == "np.expand_dims" and len(args) == 1 and [k.arg for k in node.keywords] == ["axis"]:
+            return args[0]          # elementwise reading: a new axis of length one does not change the element
         inl = self.spec.get("inline", {}).get(fname)
         if isinstance(inl, dict) and "variants" in inl:
             # pick by the type of the chosen positional argument (e.g. pair vs 4-tuple)
@@ -808,7 +833,16 @@ class Tr:
                     self.aliases = {}
                 self.aliases[tgt.id] = rhs
                 return cont(env)
+            self.masked_reads = []
             e, t = self.expr(s.value, env)
+            if self.masked_reads:
+                # `v = x[mask]`: v is "x at this element", meaningful only under that mask (checked at the masked store using it)
+                if len(set(self.masked_reads)) != 1:
+                    raise TranslationError(f"masked reads under different masks in `{ast.unparse(s)[:80]}`")
+                if not hasattr(self, "masked_vars"):
+                    self.masked_vars = {}
+                self.masked_vars[name] = self.masked_reads[0]
+                self.masked_reads = []
             want = self.spec.get("var_types", {}).get(name)
             if want is not None:
                 e, t = self.coerce(e, t, want), want
@@ -875,6 +909,8 @@ class Tr:
             return self.block(list(s.body) + rest, env, k)       # `with np.errstate(...)`: only silences warnings
         if isinstance(s, ast.While):
             return self.loop(s, rest, env, k)
+        if isinstance(s, ast.For):
+            return self.for_range(s, rest, env, k)
         raise TranslationError(f"statement {type(s).__name__}: {ast.unparse(s)[:80]}")
 
     def subscript_store(self, s, tgt, env, cont):
@@ -884,6 +920,23 @@ class Tr:
         if isinstance(sl_, ast.UnaryOp) and isinstance(sl_.op, ast.USub) and isinstance(sl_.operand, ast.Constant) \
                 and isinstance(sl_.operand.value, int):
             sl_ = ast.Constant(value=-sl_.operand.value)
+        if base is not None and base in env and (is_num(env[base][1]) or env[base][1] == BOOL) \
+                and not isinstance(sl_, (ast.Slice, ast.Tuple, ast.Constant)):
+            # elementwise reading of a masked store `x[mask] = e`: x = e where the mask holds, x elsewhere; masked reads
+            # `y[mask2]` inside e are allowed only with the very same mask
+            m, tm = self.expr(sl_, env)
+            if tm != BOOL:
+                raise TranslationError(f"assignment target {ast.unparse(tgt)}")
+            self.masked_reads = []
+            e, t = self.expr(s.value, env)
+            via_vars = [mv for n, mv in getattr(self, "masked_vars", {}).items() if n in self.used_names([s.value])]
+            if any(r != m for r in self.masked_reads + via_vars):
+                raise TranslationError(f"masked read under a different mask in `{ast.unparse(s)[:80]}`")
+            self.masked_reads = []
+            e0, t0 = env[base]
+            tj = self.join_branch(t0, t)
+            code, env2 = self.bind(base, f"(if {m} then {self.coerce(e, t, tj)} else {self.coerce(e0, t0, tj)})", tj, env)
+            return code + cont(env2)
         if base is None or base not in env or not (isinstance(env[base][1], tuple) and env[base][1][0] == "tuple") \
                 or not (isinstance(sl_, ast.Constant) and isinstance(sl_.value, int)):
             raise TranslationError(f"assignment target {ast.unparse(tgt)}")
@@ -948,6 +1001,55 @@ class Tr:
             code += f"let {self._ln(n)} : {lty(env[n][1])} := {proj('st_', i, len(state))}\n"
             env2[n] = (self._ln(n), env[n][1])
         self.uses_fuel = True
+        return code + self.block(rest, env2, k)
+
+    def for_range(self, s, rest, env, k):
+        """`for i in range(n): body` -> a left fold of the (emitted) body function over `List.range n`"""
+        it = s.iter
+        if s.orelse or not isinstance(s.target, ast.Name) or not (isinstance(it, ast.Call) and self.dotted(it.func) == "range"
+                                                                    and len(it.args) == 1 and not it.keywords):
+            raise TranslationError(f"for loop other than `for i in range(n)`: {ast.unparse(s)[:60]}")
+        for n in ast.walk(ast.Module(body=list(s.body), type_ignores=[])):
+            if isinstance(n, (ast.Break, ast.Continue, ast.Return, ast.Yield)):
+                raise TranslationError("break / continue / return / yield inside for")
+        cnt, tc = self.expr(it.args[0], env)
+        if tc != INT:
+            raise TranslationError("range() of a non-integer")
+        ivar = s.target.id
+        assigned = self.assigned_names(s.body)
+        if ivar in assigned or ivar in env:
+            raise TranslationError(f"loop variable {ivar} is assigned in the loop or shadows a variable")
+        state = [n for n in assigned if n in env]
+        if not state:
+            raise TranslationError("for loop without loop-carried variables")
+        params = [n for n in env if n not in state and n != "$out"]
+        self.nloops += 1
+        lname = f"{self.spec['name']}_body{self.nloops}"
+        st_ty = [env[n][1] for n in state]
+        st_lean = "(" + " × ".join(lean_ty(t) for t in st_ty) + ")" if len(state) > 1 else lean_ty(st_ty[0])
+        inner_env = {n: (self._ln(n), env[n][1]) for n in params + state}
+        inner_env[ivar] = (mangle(ivar), INT)
+
+        def pack(env2):
+            vals = [self.coerce(env2[n][0], env2[n][1], t) for n, t in zip(state, st_ty)]
+            return "(" + ", ".join(vals) + ")" if len(vals) > 1 else vals[0]
+
+        saved = self.raises
+        self.raises = False
+        try:
+            body = self.block(list(s.body), inner_env, pack)
+        finally:
+            self.raises = saved
+        sig = " ".join(f"({self._ln(p)} : {lean_ty(env[p][1])})" for p in params)
+        unpack = "".join(f"let {self._ln(n)} : {lean_ty(t)} := {proj('st_', i, len(state))}\n" for i, (n, t) in enumerate(zip(state, st_ty)))
+        self.aux.append(f"def {lname} {sig} (st_ : {st_lean}) ({mangle(ivar)} : Int) : {st_lean} :=\n{indent(unpack + body)}\n")
+        init = "(" + ", ".join(env[n][0] for n in state) + ")" if len(state) > 1 else env[state[0]][0]
+        code = (f"let st_ : {st_lean} := (List.range ({cnt}).toNat).foldl (fun st_ i_ => {lname} {' '.join(env[p][0] for p in params)} st_ (Int.ofNat i_)) "
+                f"{init}\n")
+        env2 = dict(env)
+        for i, n in enumerate(state):
+            code += f"let {self._ln(n)} : {lean_ty(env[n][1])} := {proj('st_', i, len(state))}\n"
+            env2[n] = (self._ln(n), env[n][1])
         return code + self.block(rest, env2, k)
 
     def _ln(self, n):
@@ -1130,6 +1232,21 @@ SPECS = [
          select=_from_stmt("valid_out = (target_lons >= -180) & (target_lons <= 180) & (target_lats <= 90) & (target_lats >= -90)",
                            upto="if isinstance(valid_output_index, np.ma.MaskedArray):\n    valid_output_index = valid_output_index.filled(False)"),
          post_guard=["return valid_output_index"], owners=["C02", "C03"]),
+    # ---- C04: the accumulation loop, normalisation and uncertainty of the weighted resampling, one target element, one channel ----
+    dict(name="weighted_result", file="pyresample/kd_tree.py", func="_resample_with_weights", mode="fragment",
+         params=[("neighbours", INT), ("new_data.ndim", INT), ("index_mask_list", ("list", BOOL)), ("weight_list", ("list", RAT)),
+                 ("ch_neighbour_list", ("list", RAT)), ("fill_value", RAT)],
+         var_types={"result": RAT, "norm": RAT},
+         outputs=["result", "result_valid_index", "norm"], output_types={"result": RAT, "result_valid_index": BOOL, "norm": RAT},
+         select=_from_stmt("result = 0", upto="if with_uncert:\n    stddev, count = _calculate_uncertainty(neighbours, new_data, index_mask_list, "
+                           "weight_list, ch_neighbour_list, result, norm)\n    return (result, stddev, count)"),
+         post_guard=["return (result, None, None)"], owners=["C04"]),
+    dict(name="weighted_uncertainty", file="pyresample/kd_tree.py", func="_calculate_uncertainty", mode="fragment", nan_division=True,
+         params=[("neighbours", INT), ("new_data.ndim", INT), ("index_mask_list", ("list", BOOL)), ("weight_list", ("list", RAT)),
+                 ("ch_neighbour_list", ("list", RAT)), ("result", RAT), ("norm", RAT), ("np.sqrt", SQRT)],
+         var_types={"count": INT, "norm_sqr": RAT, "stddev": RAT}, assume={"stddev.ndim >= 2": False},
+         outputs=["stddev", "count"], output_types={"stddev": NRAT, "count": INT},
+         ignore_return_value=True, select=_whole, owners=["C04"]),
     # ---- C05: when is the data mask used -------------------------------------------------------------
     dict(name="nn_mask_decision", file="pyresample/future/resamplers/nearest.py", func="KDTreeNearestXarrayResampler._get_area_mask",
          mode="fragment", params=[("mask_area", opt(BOOL)), ("is_swath", BOOL)],
